@@ -141,6 +141,10 @@ def make_group(r, gid):
         q = P([], bound)
         q["kw"] = [[p, reorder(v, r)] for p, v in q["kw"]]
         pres.append(q)
+    # the same binding evaluated as a one-element batch (call_batch) -- must share the key with the plain calls
+    pres.append(dict(P([], bound), via="batch"))
+    if positional:
+        pres.append(dict(P([], rest(positional[:1]), pargs=positional[:1]), via="batch"))
     variants = []
     for i, (p, v) in enumerate(binding):
         nv, what = retype(v)
@@ -153,6 +157,8 @@ def make_group(r, gid):
     q["ctx"] = ctx + [["extra", {"t": "int", "v": "1"}]]
     q["what"] = "context-args"
     variants.append(q)
+    if r.random() < 0.5:
+        variants[-1] = dict(variants[-1], via="batch")
     return {"id": gid, "sig": sig, "binding": binding, "ctx": ctx, "presentations": pres, "variants": variants[:3]}
 
 
